@@ -397,7 +397,9 @@ fn evaluate_boolean(
                 || current_index >= current_end_index
             {
                 if current_op == Not {
-                    ret = false;
+                    // `ret` is the value of the nested list that just ended; it is the last
+                    // operand evaluated for this `not`, which negates it like any other operand.
+                    ret = !ret;
                 }
                 current_index = current_end_index;
                 continue;
